@@ -138,6 +138,7 @@ fn parse_cfg(c: &Value) -> (SrvCfg, Value) {
             embedded_ack: p["embedded_ack"].as_u64().unwrap_or(0),
             file_ack: p["file_ack"].as_u64().unwrap_or(0),
             vary: p["vary"].as_bool().unwrap_or(false),
+            ackp: p["ackp"].as_bool().unwrap_or(false),
         }
     };
     if c["pic"].is_object() {
@@ -479,9 +480,9 @@ pub fn run_one(run: &Value) -> Vec<Value> {
                 "has_srv_pw": scfg.password.is_some(), "srv_pw": scfg.password.clone().unwrap_or_default(),
                 "auth": scfg.auth, "lazy_events": run["cfg"]["lazy_events"].as_bool().unwrap_or(false), "greeting": greeting, "nh": ncallers + if observer_handle { 1 } else { 0 },
                 "pic": {"embedded": sz(&pic.embedded), "file": sz(&pic.file), "hasMime": pic.mime.is_some(), "mime": pic.mime.clone().unwrap_or_default(),
-                        "limit": pic.limit, "embedded_ack": pic.embedded_ack, "file_ack": pic.file_ack, "vary": pic.vary},
+                        "limit": pic.limit, "embedded_ack": pic.embedded_ack, "file_ack": pic.file_ack, "vary": pic.vary, "ackp": pic.ackp},
                 "pic2": {"embedded": sz(&pic2.embedded), "file": sz(&pic2.file), "hasMime": pic2.mime.is_some(), "mime": pic2.mime.clone().unwrap_or_default(),
-                        "limit": pic2.limit, "embedded_ack": pic2.embedded_ack, "file_ack": pic2.file_ack, "vary": pic2.vary}}));
+                        "limit": pic2.limit, "embedded_ack": pic2.embedded_ack, "file_ack": pic2.file_ack, "vary": pic2.vary, "ackp": pic2.ackp}}));
             s.max_read = run["cfg"]["max_read"].as_u64().unwrap_or(0) as usize;
             s.max_write = run["cfg"]["max_write"].as_u64().unwrap_or(0) as usize;
             let gl = Line { t: "greet", k: vec![], v: greeting.clone(), a: 0, b: 0, bytes: greeting.clone() };
